@@ -1,0 +1,41 @@
+//go:build verif
+
+// Contracts for package resample, read by the VC generator in /verif (govc). Comments only.
+
+package resample
+
+// lines with fewer than two vertices come back as they are; a line whose vertices all coincide is
+// padded or truncated to exactly the requested count; anything else is handed on unchanged
+//@ func resampleEdgeCases(ls, totalPoints) (out, ret)
+//@   requires totalPoints >= 1 && totalPoints <= 1073741824
+//@   ensures len(ls) <= 1 ==> ret && same(out, ls)
+//@   ensures !ret ==> same(out, ls) && len(ls) >= 2
+//@   ensures ret && len(ls) >= 2 ==> len(out) == totalPoints
+//@   ensures ret && len(ls) >= 2 ==> (forall k :: 0 <= k && k < len(out) ==> out[k][0] == old(ls[0][0]) && out[k][1] == old(ls[0][1]))
+//@   loop 1: invariant -1 <= rangeindex && rangeindex < len(ls) && equal && (forall k :: 0 <= k && k <= rangeindex ==> ls[k][0] == ls[0][0] && ls[k][1] == ls[0][1])
+//@   loop 2: invariant len(ls) >= 2 && len(ls) <= totalPoints && ls[0][0] == old(ls[0][0]) && ls[0][1] == old(ls[0][1]) && (forall k :: 0 <= k && k < len(ls) ==> ls[k][0] == old(ls[0][0]) && ls[k][1] == old(ls[0][1]))
+//@   loop 2: decreases totalPoints - len(ls)
+
+// one distance per segment, dists[k] == df(ls[k], ls[k+1]) (that the total is their left fold needs a
+// frame induction over the array being filled, which the generator does not do: not stated)
+//@ func precomputeDistances(ls, df) (total, dists)
+//@   floats abstract
+//@   purefuncs
+//@   requires df != nil && len(ls) >= 1
+//@   modifies nothing
+//@   ensures len(dists) == len(ls) - 1 && fresh(dists)
+//@   ensures forall k :: 0 <= k && k < len(dists) ==> same(dists[k], df(ls[k], ls[k+1]))
+//@   loop 1: invariant 0 <= i && i <= len(ls) - 1 && len(dists) == len(ls) - 1 && fresh(dists) && dists != nil
+//@   loop 1: invariant forall k :: 0 <= k && k < i ==> same(dists[k], df(ls[k], ls[k+1]))
+
+// the interpolation loop's output count depends on two floating-point inequalities that are not
+// decided here: the contract of resample is ASSUMED (listed), not verified
+//@ func resample(ls, dists, totalDistance, totalPoints)
+//@   trusted
+//@   modifies nothing
+
+//@ func Resample(ls, df, totalPoints)
+//@   purefuncs
+//@   requires df != nil && totalPoints <= 1073741824
+//@   ensures totalPoints <= 0 ==> result == nil
+//@   ensures totalPoints >= 1 && len(ls) <= 1 ==> same(result, ls)
